@@ -27,7 +27,7 @@ sys.path.insert(0, HERE)
 sys.path.insert(0, REPO)
 
 CONTRACT_MODULES = ['contracts.validators', 'contracts.ir_types', 'contracts.runtime_base', 'contracts.serializers',
-                    'contracts.cli', 'contracts.generator', 'contracts.entrypoints', 'contracts.backend', 'contracts.frontend', 'contracts.whitelist', 'contracts.normalize', 'contracts.layout', 'contracts.evolve', 'contracts.determinism', 'contracts.faithful',
+                    'contracts.cli', 'contracts.generator', 'contracts.entrypoints', 'contracts.backend', 'contracts.frontend', 'contracts.whitelist', 'contracts.normalize', 'contracts.layout', 'contracts.evolve', 'contracts.determinism', 'contracts.faithful', 'contracts.rules',
                     'contracts.canary', 'lemmas.c10', 'lemmas.c04']
 
 
